@@ -21,6 +21,14 @@ try:
             print("repair %s does not apply (already in /repo?): %s" % (extra, ex.stderr[:200]))
     ap = subprocess.run(["git", "-C", wt, "apply", "--whitespace=nowarn", os.path.join(d, "patch.diff")], capture_output=True, text=True)
     if ap.returncode != 0:
+        # later fix: commits moved the context of some stored patches; the same change re-based on a later HEAD is kept next to it
+        rebased = sorted(glob.glob(os.path.join(d, "patch_rebased_*.diff")))
+        for rb in rebased[::-1]:
+            ap = subprocess.run(["git", "-C", wt, "apply", "--whitespace=nowarn", rb], capture_output=True, text=True)
+            if ap.returncode == 0:
+                v["applied_patch"] = os.path.basename(rb)
+                break
+    if ap.returncode != 0:
         print("patch does not apply to /repo HEAD:", ap.stderr[:300]); sys.exit(2)
     old = v.get("checks", {})
     for c in checks:
